@@ -265,41 +265,38 @@ def applySwap (b : Bank) (m : SwapMeta) (x : SwapExt) : Res (Bank × Int × Int 
                  else .ok (b2, ai, ao, fee)
     | none => .ok (b2, ai, ao, fee)
 
+/-- ProcessSwappedFund, change part: exact-out with `change` and a positive remainder ⇒ MsgTransfer FROM THE RECEIVER -/
+def changeLeg (s : St) (idx : Idx) (p : Packet) (m : SwapMeta) (remainder : Int) (r : IncRec) : Res (St × IncRec) :=
+  match m.strat with
+  | .exactOut (some chg) =>
+    if remainder > 0 then
+      (transferLeg s idx p.receiver m.routeIn remainder chg).bind fun (s3, i) => .ok (s3, { r with change := .idx i })
+    else .ok (s, r)
+  | _ => .ok (s, r)
+
+/-- ProcessSwappedFund, forward part: the net output is sent onward from the receiver -/
+def forwardLeg (s : St) (idx : Idx) (p : Packet) (m : SwapMeta) (net : Int) (r : IncRec) : Res (St × IncRec) :=
+  match m.forward with
+  | some f => (transferLeg s idx p.receiver m.routeOut net f).bind fun (s4, i) => .ok (s4, { r with forward := .idx i })
+  | none => .ok (s, r)
+
 /-- SwapIncomingFund followed by ProcessSwappedFund (funds already in the module account).
     Result: new state and `some ack` (written by core) or `none` (asynchronous). -/
 def swapAndProcess (s : St) (p : Packet) (m : SwapMeta) (x : SwapExt) : Res (St × Option Ack) :=
   if !validAddr p.receiver then .err "invalid-receiver" else
-  match m.strat with
-  | .nil => .panic .nilDeref
-  | strat =>
-    (applySwap s.bank m x).bind fun (b1, ai, ao, fee) =>
-    let net := ao - fee
-    if net < 0 then .panic .explicit else
-    if blockedAddr p.receiver then .err "blocked" else
-    (b1.send swapMod p.receiver m.routeOut net).bind fun b2 =>
-    let idx : Idx := ⟨p.dst, p.seq⟩
-    let r0 : IncRec := { index := idx, ackTok := "S", resIn := ai, resOut := ao, fee := fee, change := .none, forward := .none }
-    let remainder := p.amount - ai
-    let s2 := { s with bank := b2 }
-    -- change leg
-    let afterChange : Res (St × IncRec) :=
-      match strat with
-      | .exactOut (some chg) =>
-        if remainder > 0 then
-          (transferLeg s2 idx p.receiver m.routeIn remainder chg).bind fun (s3, i) => .ok (s3, { r0 with change := .idx i })
-        else .ok (s2, r0)
-      | _ => .ok (s2, r0)
-    afterChange.bind fun (s3, r1) =>
-    -- forward leg
-    let afterForward : Res (St × IncRec) :=
-      match m.forward with
-      | some f => (transferLeg s3 idx p.receiver m.routeOut net f).bind fun (s4, i) => .ok (s4, { r1 with forward := .idx i })
-      | none => .ok (s3, r1)
-    afterForward.bind fun (s4, r2) =>
-    if r2.change.isIdx || r2.forward.isIdx then
-      .ok ({ s4 with inc := upd s4.inc idx (some r2) }.touch idx, none)
-    else
-      .ok (s4, some ⟨true, swapAckTok ai ao "S" "-" "-"⟩)
+  if m.strat = .nil then .panic .nilDeref else
+  (applySwap s.bank m x).bind fun (b1, ai, ao, fee) =>
+  if ao - fee < 0 then .panic .explicit else
+  if blockedAddr p.receiver then .err "blocked" else
+  (b1.send swapMod p.receiver m.routeOut (ao - fee)).bind fun b2 =>
+  let idx : Idx := ⟨p.dst, p.seq⟩
+  let r0 : IncRec := { index := idx, ackTok := "S", resIn := ai, resOut := ao, fee := fee, change := .none, forward := .none }
+  (changeLeg { s with bank := b2 } idx p m (p.amount - ai) r0).bind fun (s3, r1) =>
+  (forwardLeg s3 idx p m (ao - fee) r1).bind fun (s4, r2) =>
+  if r2.change.isIdx || r2.forward.isIdx then
+    .ok ({ s4 with inc := upd s4.inc idx (some r2) }.touch idx, none)
+  else
+    .ok (s4, some ⟨true, swapAckTok ai ao "S" "-" "-"⟩)
 
 /-! ### middleware callbacks -/
 
@@ -354,7 +351,8 @@ def opTransfer (s : St) (sender : Addr) (ch : Chan) (d : Denom) (x : Int) (recei
 def opRecv (s : St) (ch : Chan) (seq : Nat) (x : SwapExt) (errTok : String) : St × String :=
   match s.commits ⟨ch, seq⟩ with
   | none => (s, "err")
-  | some p =>
+  | some p0 =>
+    let p : Packet := { p0 with src := ch, seq := seq }  -- the packet relayed is the one committed under this key
     let i : Idx := ⟨p.dst, seq⟩
     if s.receipts i then (s, "ok") else
     let s0 := { s with receipts := upd s.receipts i true }.touch i
@@ -368,7 +366,8 @@ def opRecv (s : St) (ch : Chan) (seq : Nat) (x : SwapExt) (errTok : String) : St
 def opAck (s : St) (ch : Chan) (seq : Nat) : St × String :=
   match s.commits ⟨ch, seq⟩ with
   | none => (s, "err")
-  | some p =>
+  | some p0 =>
+    let p : Packet := { p0 with src := ch, seq := seq }  -- the packet relayed is the one committed under this key
     match s.acks ⟨p.dst, seq⟩ with
     | none => (s, "err")
     | some a =>
@@ -380,7 +379,8 @@ def opAck (s : St) (ch : Chan) (seq : Nat) : St × String :=
 def opTimeout (s : St) (ch : Chan) (seq : Nat) : St × String :=
   match s.commits ⟨ch, seq⟩ with
   | none => (s, "err")
-  | some p =>
+  | some p0 =>
+    let p : Packet := { p0 with src := ch, seq := seq }  -- the packet relayed is the one committed under this key
     if s.receipts ⟨p.dst, seq⟩ then (s, "err") else
     match onTimeout { s with commits := upd s.commits ⟨ch, seq⟩ none } p with
     | .ok s1 => (s1, "ok")
